@@ -127,8 +127,10 @@ impl BinaryWriter {
                 .segments()
                 .iter()
                 .filter(|(_, segment)| {
+                    // A segment nothing was emitted to occupies no addresses, wherever it was configured to start
                     segment.options().bank.as_ref().unwrap_or(default_bank) == bank_name
                         && segment.options().write
+                        && !segment.range().is_empty()
                 })
                 .collect();
             log::trace!(
